@@ -9,5 +9,5 @@ for id in $ids; do
   s=$(date +%s); ./check $id thorough > thorough-logs/$id.log 2>&1; rc=$?; e=$(date +%s)
   echo "$id rc=$rc wall=$((e-s))s known=$(grep -c '^KNOWN-FINDING' thorough-logs/$id.log) $(grep 'tier=thorough' thorough-logs/$id.log | cut -c1-300)"
   grep "^VIOLATION\|^VACUOUS\|build failed\|^violation key" thorough-logs/$id.log | head -5
-  jq -c '{caps: .caps, exhaustive: .exhaustive}' evidence/$id.json 2>/dev/null | cut -c1-400
+  jq -c "{caps: .coverage.caps, exhaustive: .coverage.exhaustive}" evidence/$id.json 2>/dev/null | cut -c1-400
 done
